@@ -151,8 +151,9 @@ class EValue(PyEcoreValue):
                  .append(owner, update_opposite=False)
         else:
             # the new partner leaves the object it was linked to
+            # (compared with '!=': current may be a proxy of owner)
             current = value.__getattribute__(opposite_name)
-            if current is not None and current is not owner:
+            if current is not None and current != owner:
                 current.__getattribute__(efeature._name)  # Force load
                 current.__dict__[efeature._name] \
                        ._set(None, update_opposite=False)
@@ -213,8 +214,9 @@ class ECollection(PyEcoreValue):
         else:
             new_value = None if remove else new_value
             current = owner.__getattribute__(opposite_name)  # Force load
+            # (compared with '!=': current may be a proxy of new_value)
             if not remove and current is not None \
-                    and current is not new_value:
+                    and current != new_value:
                 # the element leaves the collection it was linked to
                 current.__getattribute__(self.feature._name) \
                        .remove(owner, False)
